@@ -25,6 +25,21 @@ pub trait NamingContext {
         convention.apply_to_field(field_name)
     }
 
+    /// Apply a naming convention to a command parameter the way Tauri's command macro does.
+    /// Tauri splits the Rust name into words, so for snake_case `_lead`, `trail_` and `dbl__us`
+    /// become `lead`, `trail` and `dbl_us` (serde's snake_case rule would keep them unchanged)
+    fn apply_parameter_convention(&self, param_name: &str, convention: RenameRule) -> String {
+        if matches!(convention, RenameRule::SnakeCase) {
+            param_name
+                .split('_')
+                .filter(|word| !word.is_empty())
+                .collect::<Vec<_>>()
+                .join("_")
+        } else {
+            self.apply_naming_convention(param_name, convention)
+        }
+    }
+
     /// Compute the serialized name for a field based on serde attributes
     ///
     /// Priority:
@@ -90,13 +105,13 @@ pub trait NamingContext {
             rename.to_string()
         } else if let Some(convention) = command_rename_all {
             // Apply command-level naming convention
-            self.apply_naming_convention(param_name, *convention)
+            self.apply_parameter_convention(param_name, *convention)
         } else {
             // No serde attributes, apply default from config
             let default_case =
                 RenameRule::from_rename_all_str(&self.config().default_parameter_case)
                     .unwrap_or(RenameRule::CamelCase);
-            self.apply_naming_convention(param_name, default_case)
+            self.apply_parameter_convention(param_name, default_case)
         }
     }
 
